@@ -45,7 +45,7 @@ func c18run(t *testing.T, enc *json.Encoder, id int, sc c18scen) {
 	defer rb.Unlink()
 	defer rb.Close()
 	enc.Encode(map[string]any{"ev": "Create", "scen": id, "cap": sc.Cap})
-	acc := 0
+	acc, off := 0, 0
 	for _, op := range sc.Ops {
 		func() {
 			defer func() {
@@ -57,7 +57,7 @@ func c18run(t *testing.T, enc *json.Encoder, id int, sc c18scen) {
 			case "Write":
 				data := make([]byte, op.N)
 				for i := range data {
-					data[i] = byte((acc + i) % 251)
+					data[i] = byte((off + acc + i) % 251)
 				}
 				k, _ := rb.Write(data)
 				acc += k
@@ -71,6 +71,22 @@ func c18run(t *testing.T, enc *json.Encoder, id int, sc c18scen) {
 			case "ReadMult":
 				d, e := rb.ReadMultipleOf(op.N)
 				enc.Encode(map[string]any{"ev": "ReadMult", "n": op.N, "data": c18ints(d), "err": e != nil})
+			case "Recreate":
+				// the writer goes away without Unlink (its regions stay behind) and a new writer calls Create on the same
+				// names: whatever the regions hold, the new ring starts empty.  Written bytes carry a new offset, so that
+				// stale bytes are told from new ones.
+				rb.Close()
+				rb2, err := NewRingBuffer(name+"_raw", name+"_desc")
+				if err != nil {
+					t.Fatalf("NewRingBuffer: %v", err)
+				}
+				if err = rb2.Create(op.N); err != nil {
+					t.Fatalf("Create: %v", err)
+				}
+				*rb = *rb2 // (the deferred Close / Unlink act on the current ring)
+				acc = 0
+				off += 97
+				enc.Encode(map[string]any{"ev": "Recreate", "cap": op.N, "off": off % 251, "readable": rb.BytesReadable(), "writeable": rb.BytesWriteable()})
 			case "Discard":
 				rb.DiscardStride(uint64(op.N))
 				enc.Encode(map[string]any{"ev": "Discard", "n": op.N, "rp": int(rb.desc.readPointer), "wp": int(rb.desc.writePointer)})
@@ -137,6 +153,10 @@ func TestVerifC18(t *testing.T) {
 					k = 1 + rng.Intn(c+2)
 				}
 				op = c18op{"Discard", k}
+			}
+			if rng.Intn(25) == 0 {
+				c = caps[rng.Intn(len(caps))] // a new writer on the regions left behind, possibly with another size
+				op = c18op{"Recreate", c}
 			}
 			sc.Ops = append(sc.Ops, op)
 		}
